@@ -17,7 +17,14 @@ class User(Exception):
         self.k = k
 
 
+# exceptions outside the `Exception` hierarchy (the model's `user k` for k >= 900)
+import asyncio
+BASE_EXC = {900: KeyboardInterrupt, 901: SystemExit, 902: asyncio.CancelledError}
+
+
 def make_exn(code):
+    if code[0] == 'u' and int(code[1:]) in BASE_EXC:
+        return BASE_EXC[int(code[1:])]()
     if code == 'g':
         return GeneratorExit()
     if code == 's':
@@ -30,6 +37,9 @@ def make_exn(code):
 
 
 def exn_code(e):
+    for k, cls in BASE_EXC.items():
+        if type(e) is cls:
+            return 'u%d' % k
     if isinstance(e, User):
         return 'u%d' % e.k
     if isinstance(e, GeneratorExit):
@@ -51,6 +61,9 @@ def echo(resume):
         return val
     if isinstance(val, User):
         return 100 + val.k
+    for k, cls in BASE_EXC.items():
+        if type(val) is cls:
+            return 100 + k
     return 99
 
 
